@@ -621,6 +621,41 @@ func c17FailClosed(c *Ctx, reg *guardedGlobal) {
 					nw++
 					ok := funcPkgPath(fn) == pkgPath("texttable")
 					r.Check("R17.4", FuncName(fn), "store TextTable.decor", in.Pos(), ok, "decor is written only by texttable's constructor and setters")
+					// what is stored is a decoration as it was handed in or looked up: nothing fills it in on the way
+					// (an empty decoration that acquires default glyphs is no longer recognised as "unknown")
+					v := s.Val
+					asGiven := true
+					why := ""
+					if u, isU := v.(*ssa.UnOp); isU && u.Op == token.MUL {
+						if al, isAl := u.X.(*ssa.Alloc); isAl {
+							// a local holding the value: it may be written once (param spill or the lookup result)
+							// and its address may not be handed to anything
+							nst := 0
+							for _, rr := range referrersOf(al) {
+								switch y := rr.(type) {
+								case *ssa.Store:
+									if y.Addr == ssa.Value(al) {
+										nst++
+									}
+								case *ssa.UnOp, *ssa.DebugRef:
+								case *ssa.FieldAddr:
+									for _, r2 := range referrersOf(y) {
+										if st2, isSt := r2.(*ssa.Store); isSt && st2.Addr == ssa.Value(y) {
+											asGiven, why = false, "a field of the decoration is assigned before it is installed"
+										}
+									}
+								case ssa.CallInstruction:
+									asGiven, why = false, "the decoration is handed to "+calleeDesc(y.Common())+" (which may fill it in) before it is installed"
+								default:
+									asGiven, why = false, "the decoration's address is used by "+rr.String()
+								}
+							}
+							if nst > 1 {
+								asGiven, why = false, "the decoration is re-assigned before it is installed"
+							}
+						}
+					}
+					r.Check("R17.4", FuncName(fn), "the decoration installed is the one given or looked up, untouched", in.Pos(), asGiven, why)
 				}
 			}
 		})
